@@ -21,6 +21,20 @@ CORPUS = [
     ("C01", "R-C01-gate", B, "sasmodels/kernel_iq.c", "    if (weight > cutoff) {", "    if (weight >= cutoff) {", "non-strict cutoff"),
     ("C01", "R-C01-restart", B, "sasmodels/kernel_iq.c", "  int i##_LOOP = (pd_start/details->pd_stride[_LOOP])%n##_LOOP;",
      "  int i##_LOOP = (pd_start/details->pd_stride[_LOOP]);", "drop the modulus"),
+    ("C01", "R-C01-gpu", B, "sasmodels/kernel_iq.c", "  if (q_index >= nq) return;\n", "", "padding work items no longer leave (OpenCL configuration only)"),
+    ("C01", "R-C01-gpu", B, "sasmodels/kernel_iq.c", "      double this_F2 = (pd_start == 0 ? 0.0 : result[q_index]);",
+     "      double this_F2 = 0.0;", "q-point sum not carried between chunks on the GPU"),
+    ("C01", "R-C01-gpu", B, "sasmodels/kernel_iq.c", "  result[2*q_index+0] = this_F2;\n  result[2*q_index+1] = this_F1;",
+     "  result[2*q_index+0] = this_F1;\n  result[2*q_index+1] = this_F2;", "F2/F1 stored back crossed on the GPU"),
+    ("C01", None, T, "sasmodels/kernel_iq.c", "  if (q_index >= nq) return;\n", "  if (q_index >= nq) { return; }\n", "braced early exit"),
+    ("C01", "R-C01-drivers", B, "sasmodels/kernelcl.py", "        cl.enqueue_copy(queue, self.result, self._result_b, wait_for=wait_for)",
+     "        cl.enqueue_copy(queue, self._result_b, self.result, wait_for=wait_for)", "read-back direction reversed (OpenCL driver)"),
+    ("C01", "R-C01-drivers", B, "sasmodels/kernelcuda.py", "        name = 'Iq' if self.dim == '1d' else 'Imagnetic' if magnetic else 'Iqxy'",
+     "        name = 'Iq' if self.dim == '1d' else 'Iqxy' if magnetic else 'Imagnetic'", "magnetic kernel selection inverted (CUDA driver)"),
+    ("C01", "R-C01-drivers", B, "sasmodels/kernelcl.py", "            self.q[:self.nq, 1] = q_vectors[1]", "            self.q[:self.nq, 1] = q_vectors[0]", "qy column filled with qx (OpenCL input)"),
+    ("C01", "R-C01-drivers", B, "sasmodels/kernelcuda.py", "        nout = 2 if self.info.have_Fq and self.dim == '1d' else 1", "        nout = 2 if self.info.have_Fq and self.dim == '2d' else 1", "result vector too short for F, F^2 pairs (CUDA)"),
+    ("C01", None, T, "sasmodels/kernelcl.py", "        name = 'Iq' if self.dim == '1d' else 'Imagnetic' if magnetic else 'Iqxy'",
+     "        name = 'Iq' if self.dim == '1d' else ('Iqxy' if not magnetic else 'Imagnetic')", "selection rephrased"),
     ("C01", "R-C01-maxpd", B, "sasmodels/details.py", "    if num_active > max_pd:\n        raise ValueError(\"Too many polydisperse parameters\")\n",
      "", "refusal deleted"),
     ("C01", "R-C01-chunk", B, "sasmodels/kerneldll.py", "            stop = min(start + step, call_details.num_eval)", "            stop = start + step", "last chunk overruns"),
